@@ -47,15 +47,56 @@ Fixpoint scalls (s : gstmt) : list string :=
 (* the methods of the IR packages (a body with a receiver type) *)
 Definition observers : list printer := filter (fun p => negb (String.eqb (p_type p) "")) printers.
 
-(* 1. no printer writes a field; a Type method writes only its own cache (and, for the three
-      kinds whose type is a pointer carrying an address space, that address space) *)
+(* assignments to fields together with the conditions of the enclosing ifs (the condition for the
+   then-branch, its negation for the else-branch) *)
+Fixpoint gsets (guards : list gexpr) (s : gstmt) : list (string * list string * list gexpr) :=
+  match s with
+  | SSet x path _ => [(x, path, guards)]
+  | SSetIndex x f _ _ => [(x, [f; "[]"], guards)]
+  | SIf _ c t e => flat_map (gsets (c :: guards)) t ++ flat_map (gsets (ENot c :: guards)) e
+  | SFor _ _ _ b | SForMap _ _ _ b => flat_map (gsets guards) b
+  | SFor3 i _ p b => gsets guards i ++ gsets guards p ++ flat_map (gsets guards) b
+  | STypeSwitch _ _ cs d => flat_map (fun c => flat_map (gsets guards) (snd c)) cs ++ flat_map (gsets guards) d
+  | SChunk b => flat_map (gsets guards) b
+  | _ => []
+  end.
+(* locals bound to a freshly allocated pointer type: x := types.NewPointer(..) *)
+Fixpoint fresh_locals (s : gstmt) : list string :=
+  match s with
+  | SLet true [x] (ECall (ESel (EId "types") "NewPointer") _) => [x]
+  | SIf _ _ t e => flat_map fresh_locals t ++ flat_map fresh_locals e
+  | SFor _ _ _ b | SForMap _ _ _ b => flat_map fresh_locals b
+  | SFor3 i _ p b => fresh_locals i ++ fresh_locals p ++ flat_map fresh_locals b
+  | STypeSwitch _ _ cs d => flat_map (fun c => flat_map fresh_locals (snd c)) cs ++ flat_map fresh_locals d
+  | SChunk b => flat_map fresh_locals b
+  | _ => []
+  end.
+Definition is_nil_test (recv field : string) (g : gexpr) : bool :=
+  match g with
+  | EBin op (ESel (EId r) f) ENil => String.eqb op "==" && String.eqb r recv && String.eqb f field
+  | _ => false
+  end.
+
+(* 1. no printer writes a field of an object that existed before the call, except that a Type method fills
+      its own cache (and, for the three kinds whose type is a pointer carrying an address space, that address
+      space), and only under the test that the cache is empty: the write happens at most once per object, and
+      never once the constructors or the parser have filled the cache.  A write to a local that was bound to
+      a fresh types.NewPointer(..) in the same body touches no shared object. *)
 Definition write_ok (p : printer) : bool :=
-  forallb (fun w => match w with (x, path) =>
-      String.eqb (p_method p) "Type" && String.eqb x (p_recv p) &&
-      (match path with ["Typ"] => true | ["Typ"; "AddrSpace"] => mem (p_type p) ["ir.Func"; "ir.Global"; "ir.InstAlloca"] | _ => false end) end)
-    (flat_map sets (p_body p)).
+  forallb (fun w => match w with (x, path, guards) =>
+      if String.eqb x (p_recv p) then
+        String.eqb (p_method p) "Type" &&
+        (match path with ["Typ"] => true | ["Typ"; "AddrSpace"] => mem (p_type p) ["ir.Func"; "ir.Global"; "ir.InstAlloca"] | _ => false end) &&
+        existsb (is_nil_test (p_recv p) "Typ") guards
+      else mem x (flat_map fresh_locals (p_body p)) end)
+    (flat_map (gsets []) (p_body p)).
 Theorem observers_write_only_the_type_cache : forallb write_ok observers = true.
 Proof. vm_compute. reflexivity. Qed.
+(* how many such caches there are, and that the analysis sees them (non-vacuity) *)
+Definition caching_observers : list (string * string) :=
+  map (fun p => (p_type p, p_method p)) (filter (fun p => match flat_map (gsets []) (p_body p) with [] => false | _ => true end) observers).
+Example caching_observers_are_type_methods : forallb (fun tm => String.eqb (snd tm) "Type") caching_observers = true /\ 40 <= List.length caching_observers.
+Proof. vm_compute. split; [reflexivity|repeat constructor]. Qed.
 
 (* 2. the only methods with an effect that observers call are the three ID passes (C08, C13, C17) *)
 Definition pure_calls : list string :=
